@@ -86,7 +86,9 @@ def check_constant(acc, ci):
                     case = {'kind': 'constant', 'chain': ci, 'start': start, 'dur': dur, 'value': value, 't': t, 't_unit': tu}
                     m = sim.Model(spec)
                     rh.set_state(m, chain, t, 0.0, 0.0, t_unit=tu)
-                    rule = ConstantPWM(timer=Timer(Time(*start), TimeInterval(*dur)), powertrain=m.pt, target_pwm_value=value)
+                    # (a start written in ms is handed over as a TimeInterval, a sub-kind of Time)
+                    start_q = TimeInterval(*start) if start[1] == 'ms' else Time(*start)
+                    rule = ConstantPWM(timer=Timer(start_q, TimeInterval(*dur)), powertrain=m.pt, target_pwm_value=value)
                     acc.transitions += 1
                     got = rule.apply()
                     exp = value if inside else None
